@@ -122,7 +122,15 @@ def inverse_circuit(tableau):
         elif y_list:
             tableau = tab_row_swap(tableau, pivot[0], y_list[0])
         elif z_list:
+            # the pivot must be a generator without X or Y (Z block of the canonical
+            # form): a generator with X or Y holds the X pivot of a later column
+            z_list = [i for i in z_list if not np.any(tableau.x_matrix[i])]
             tableau = tab_row_swap(tableau, pivot[0], z_list[-1])
+            # remove the Z of this column from the generators below the pivot, so that
+            # the X matrix is upper triangular when the CNOT block starts
+            for row_i in range(pivot[0] + 1, n_qubits):
+                if tableau.z_matrix[row_i, j] == 1:
+                    tableau = tab_row_sum(tableau, pivot[0], row_i)
             if np.any(tableau.x_matrix[pivot[0], j + 1 : n_qubits]) or np.any(
                 tableau.z_matrix[pivot[0], j + 1 : n_qubits]
             ):
